@@ -67,6 +67,8 @@ class Engine:
         self.tier = "quick"
         self.cut_continue = {}  # cut_calls entries that only assert the entry state and then go on with the callee's contract
         self.cut_calls = {}  # (caller qualname, callee qualname) -> extra requires; the path ends after the call's requires
+        self.inlined_now = set()  # real functions without a contract of their own whose bodies were executed inside the target
+        self.used_now = set()  # contracts used at call sites of the target (verified elsewhere or assumed)
 
     # ------------------------------------------------------------------ registry
     def add(self, contract):
@@ -150,6 +152,8 @@ class Engine:
                 bound["$closure"] = fn.frame
                 return self.apply(c, ct, bound, node)
             bound = I.bind_args(c, fn.node, args, dict(kwargs), lambda d: self._default(c, d, fn.frame), fn.qual)
+            if key != self.current_target:
+                self.inlined_now.add(key)
             return I.run_function(c, fn.node, fn.frame.module, bound, fn.qual, parent=fn.frame)
         if isinstance(fn, BoundMethod):
             if isinstance(fn.func, str):  # external method
@@ -176,6 +180,8 @@ class Engine:
             if fn.__module__ and fn.__module__.startswith(PKG) and key not in self.inline_never:
                 fnode, mod = self.find_def(fn)
                 bound = I.bind_args(c, fnode, args, dict(kwargs), lambda d: self._default_real(c, d, fn, fnode), fn.__qualname__)
+                if key != self.current_target:
+                    self.inlined_now.add(key)
                 return I.run_function(c, fnode, mod, bound, fn.__qualname__)
             raise Undecided(f"call to {key} has neither contract nor model (line {getattr(node, 'lineno', '?')})")
         if isinstance(fn, type):
@@ -248,6 +254,7 @@ class Engine:
         """Use of a contract at a call site: prove requires, havoc the frame, assume one outcome's post."""
         line = getattr(node, "lineno", "?")
         short = ct.key.split(":")[-1]
+        self.used_now.add(("assumed:" if ct.assumed else "contract:") + ct.key)
         req = c.proving(ct.requires, c, a)
         if req is not True:
             c.prove(f"call:{short}.requires", req, node)
@@ -771,6 +778,8 @@ class Engine:
         rep["time_s"] = time.time() - t0
         rep["sites"] = [(k_[0], k_[1], k_[2], v_[0], v_[1]) for k_, v_ in self.site_stats.items()]
         self.site_stats = {}
+        rep["inlined"], rep["uses"] = sorted(self.inlined_now), sorted(self.used_now)
+        self.inlined_now, self.used_now = set(), set()
         if roots is None and not split_only:
             rep["undecided"] += vacuous_sites(rep["sites"])
         self.fn_reports[key] = rep
